@@ -25,6 +25,7 @@ type c09Plan struct {
 	space  *qt.Space
 	nTree  int
 	nRand  int
+	nLong  int
 	stride int
 }
 
@@ -34,10 +35,12 @@ func newC09Plan(tier string) *c09Plan {
 		p.seqs = []*gen.TokSeqs{gen.NewTokSeqs(gen.Sigma, 5), gen.NewTokSeqs(gen.SigmaSmall, 6)}
 		p.space = qt.NewSpace(qt.FullLeaves())
 		p.nRand = 96
+		p.nLong = 24
 	} else {
 		p.seqs = []*gen.TokSeqs{gen.NewTokSeqs(gen.Sigma, 4), gen.NewTokSeqs(gen.SigmaSmall, 5)}
 		p.space = qt.NewSpace(qt.QuickLeaves())
 		p.nRand = 8
+		p.nLong = 3
 	}
 	b := 0
 	for _, s := range p.seqs {
@@ -55,7 +58,7 @@ func newC09Plan(tier string) *c09Plan {
 
 func (c09) Batches(tier string, seed int64) int {
 	p := newC09Plan(tier)
-	return p.nSeq + p.nTree + p.nRand
+	return p.nSeq + p.nTree + p.nRand + p.nLong
 }
 
 var symbolTok = map[string]bool{":": true, "=": true, ">": true, "<": true, "+": true, "~": true, "^": true, "(": true, ")": true, "[": true, "]": true, "{": true, "}": true}
@@ -83,6 +86,8 @@ func (p c09) RunBatch(ctx *core.Ctx, batch int) {
 		for i := lo; i < hi; i++ {
 			c09Tree(ctx, plan.space.At(i).Clone(), r)
 		}
+	case batch >= plan.nSeq+plan.nTree+plan.nRand:
+		c09Long(ctx, batch-(plan.nSeq+plan.nTree+plan.nRand))
 	default:
 		r := ctx.Rand("deep")
 		leaves := append(append(qt.FullLeaves(), qt.ExtraLeaves()...), qt.HostileLeaves(r, gen.ValueDict(r, 80), 24, true)...)
@@ -93,6 +98,80 @@ func (p c09) RunBatch(ctx *core.Ctx, batch int) {
 			}
 			c09Tree(ctx, t.Clone(), r)
 		}
+	}
+}
+
+// c09Units are well-formed operands as token lists; chained they give long queries whose layout
+// variants have very different byte lengths for the same tokens.
+var c09Units = [][]string{
+	{"a"}, {"+", "a"}, {"-", "a"}, {"(", "a", ")"}, {"(", "+", "a", ")"}, {"a", ":", "1"}, {"+", "a", ":", "1"}, {"-", "a", ":", "b"},
+	{"a", ":", "b", "^", "2"}, {"a", "~"}, {"a", "~", "2"}, {"NOT", "a"}, {"f", ":", "[", "1", "TO", "5", "]"}, {"f", ":", "{", "a", "TO", "*", "}"},
+	{"n", ":", ">", "=", "4"}, {"n", ":", "<", "4"}, {"x", ":", "(", "p", "OR", "q", ")"}, {`"q s"`}, {"f", ":", `"q"`}, {"/re/"}, {"f", ":", "/r e/"},
+	{"(", "(", "a", ")", ")"}, {"+", "(", "a", "OR", "b", ")"}, {"w*"}, {"f", "=", "1"},
+}
+
+// c09Long: chains of 1…400 units (one unit repeated, or a seeded mix; juxtaposed or joined by AND/OR)
+// in three layouts: single spaces, no space next to a symbol, long whitespace runs.
+func c09Long(ctx *core.Ctx, k int) {
+	r := ctx.Rand("long")
+	lens := []int{1, 2, 3, 4, 5, 6, 7, 8, 9, 10, 11, 12, 13, 14, 15, 16, 17, 18, 19, 20, 24, 31, 32, 33, 48, 64, 100, 200, 400}
+	joins := [][]string{nil, {"AND"}, {"OR"}}
+	emit := func(toks []string) {
+		base := strings.Join(toks, " ")
+		var b strings.Builder
+		for i, t := range toks {
+			if i > 0 {
+				l := toks[i-1]
+				if !((symbolTok[l] || symbolTok[t]) && l != "-" && t != "-") {
+					b.WriteString(" ")
+				}
+			}
+			b.WriteString(t)
+		}
+		compact := b.String()
+		ctx.Case(compact, func() { c09Same(ctx, "whitespace-removed", base, compact, true) })
+		ws := wsRun(r)
+		b.Reset()
+		for i, t := range toks {
+			if i > 0 {
+				for j := 1 + r.Intn(6); j > 0; j-- {
+					b.WriteString(ws())
+				}
+			}
+			b.WriteString(t)
+		}
+		padded := strings.Repeat(" ", r.Intn(300)) + b.String() + strings.Repeat("\n", r.Intn(300))
+		ctx.Case(padded, func() { c09Same(ctx, "whitespace", base, padded, true) })
+		ctx.Max("long_tokens", float64(len(toks)))
+		ctx.Count("long_chains", 1)
+	}
+	if k == 0 {
+		for _, u := range c09Units {
+			for _, j := range joins {
+				for _, n := range lens {
+					toks := []string{}
+					for i := 0; i < n; i++ {
+						if i > 0 {
+							toks = append(toks, j...)
+						}
+						toks = append(toks, u...)
+					}
+					emit(toks)
+				}
+			}
+		}
+		return
+	}
+	for c := 0; c < 600; c++ {
+		n := lens[r.Intn(len(lens))]
+		toks := []string{}
+		for i := 0; i < n; i++ {
+			if i > 0 {
+				toks = append(toks, joins[r.Intn(len(joins))]...)
+			}
+			toks = append(toks, c09Units[r.Intn(len(c09Units))]...)
+		}
+		emit(toks)
 	}
 }
 
@@ -279,10 +358,12 @@ func (c09) Finish(res *core.Result, cov map[string]any) []string {
 	reasons := []string{}
 	cov["distinct_nontrivial"] = res.NDistinct("nontrivial")
 	cov["exhaustive"] = true
-	cov["rule"] = "token sequences up to length L (exhaustive) with every separator re-filled by space/tab/CR/LF runs, leading/trailing runs, separators removed next to symbol tokens, and every lower-case subset of their keywords (both directions of the iff); every depth<=2 tree (exhaustive over the leaf alphabet), with and without juxtapositions, under every single redundant-parenthesis placement the statement names (whole query, operand of an explicit operator, field value). Non-trivial = distinct (base, variant) pair whose base parses."
+	cov["rule"] = "token sequences up to length L (exhaustive) with every separator re-filled by space/tab/CR/LF runs, leading/trailing runs, separators removed next to symbol tokens, and every lower-case subset of their keywords (both directions of the iff); every depth<=2 tree (exhaustive over the leaf alphabet), with and without juxtapositions, under every single redundant-parenthesis placement the statement names (whole query, operand of an explicit operator, field value); chains of 1…400 operands (25 unit shapes, repeated or mixed, juxtaposed / AND / OR) in three layouts (single spaces, no space next to a symbol, long whitespace runs with leading/trailing runs). Non-trivial = distinct (base, variant) pair whose base parses."
 	for _, k := range []string{"variants_whitespace", "variants_whitespace-removed", "variants_keyword-case", "variants_parens-whole", "variants_parens-operand", "variants_parens-value", "variants_parens-amount"} {
 		floor(res.Counters[k] >= 500, &reasons, "%s = %d", k, res.Counters[k])
 	}
+	floor(res.Counters["long_chains"] >= 1000, &reasons, "long chains %d", res.Counters["long_chains"])
+	cov["longest_chain_tokens"] = res.MaxF["long_tokens"]
 	floor(res.Counters["accept_accept"] >= 1000 && res.Counters["reject_reject"] >= 1000, &reasons, "accept/accept %d reject/reject %d", res.Counters["accept_accept"], res.Counters["reject_reject"])
 	return reasons
 }
